@@ -89,6 +89,11 @@ def cases(ctx):
     # ---- long flat texts (hundreds of tokens on few nesting levels) and their truncations
     for i in range(12 if q else 150):
         yield 'long', {'i': i}
+    # ---- quantity without nesting: conjunctions of thousands of triples in every junction style,
+    # streams of thousands of graphs (nothing in the language is recursive there)
+    for i in range(4 if q else 24):
+        if i % ctx.nshards == ctx.shard:
+            yield 'many', {'i': i}
     # ---- random
     n = 1500 if q else 20000
     ctx.new_phase()
@@ -186,6 +191,28 @@ def oracle(ctx, kind, p):
         ctx.case(s, True)
         ctx.count('accepted' if acc else 'rejected')
         ctx.count('long_texts')
+    elif kind == 'many':
+        rng = ctx.rng('many', p['i'])
+        n = rng.choice([1100, 1500, 2500, 4000])
+        if p['i'] % 2 == 0:
+            styles = ['^', ' ^', '^ ', ' ^ ', '\n^', ' ^\n', '^\n']
+            st = styles[(p['i'] // 2) % len(styles)]
+            mixed = p['i'] % 8 == 6
+            parts = []
+            for k in range(n):
+                parts.append(rng.choice(['r(a,b)', f'op{k % 7}(x{k}, y)', 'q(a, "s ^ t")', f'instance(v{k},c)']))
+                if k < n - 1:
+                    parts.append(rng.choice(styles) if mixed else st)
+            s = ''.join(parts)
+            ctx.count('long_conjunctions')
+        else:
+            sep = ['', ' ', '\n', '\n\n'][(p['i'] // 2) % 4]
+            s = sep.join(rng.choice(['(a)', '(b / c)', '(d :r e)', '# ::id 1\n(f / g :h (i))']) for _ in range(n))
+            ctx.count('long_streams')
+        ctx.current = ['str', {'s': s}]
+        acc = _text.check_parsers(ctx, s, budget=False, containers=False)
+        ctx.case(('many', p['i'], len(s)), True)
+        ctx.count('accepted' if acc else 'rejected')
     elif kind == 'prefixes':
         rng = ctx.rng('prefixes', p['i'])
         import penman
